@@ -133,3 +133,54 @@ func H_C02_vocab() {
 	}
 	vDone()
 }
+
+// H_C02_nested: a fixed opening context followed by K symbolic-type tokens, so that
+// the inside of calls, indexes and parentheses is explored two tokens deeper.
+func H_C02_nested() {
+	K := vParam("K")
+	k := 1 + vChoice("len", K)
+	var prefix []int
+	switch vParam("CTX") {
+	case 0:
+		prefix = []int{Variable, LeftBrace} // f(
+	case 1:
+		prefix = []int{Variable, LeftSquareBrace} // a[
+	case 2:
+		prefix = []int{LeftBrace} // (
+	case 3:
+		prefix = []int{Variable, LeftBrace, Variable, Comma} // f(a,
+	}
+	var toks []*ExpressionToken
+	for i, t := range prefix {
+		toks = append(toks, VerifToken(t, i, nil))
+	}
+	rest := VerifSymTokens(k)
+	for i, t := range rest {
+		// renumber positions / names after the prefix
+		v := t.Value()
+		if t.Type() == Variable {
+			v = nil
+		}
+		toks = append(toks, VerifToken(t.Type(), len(prefix)+i, v))
+	}
+	tree := VerifReference(toks)
+	p := NewExpressionParser()
+	err, panicked := guardedParse(func() error { return p.VerifParseInitialTokens(toks) })
+	if panicked {
+		vAssert(tree == nil, "parser:sentence-accepted")
+		vDone()
+		return
+	}
+	if tree != nil {
+		vAssert(err == nil, "parser:sentence-accepted")
+		if err == nil {
+			VerifCheckProgram(p, tree)
+		}
+	} else {
+		vAssert(err != nil, "parser:non-sentence-rejected")
+		if err != nil {
+			vAssert(VerifErrorHasCode(err), "parser:error-carries-code")
+		}
+	}
+	vDone()
+}
